@@ -18,6 +18,16 @@ KEYTYPES = {
 # keys: duplicates around positions 15/16/17 (block boundary for 4-byte keys), gaps (odd keys absent above 40)
 KEYS1 = [0, 1, 2, 3, 4, 5, 6, 7, 8, 9, 10, 11, 12, 13, 14, 15, 15, 15, 16, 17, 18, 20, 20, 22, 24, 26, 28, 30, 31, 31, 31, 31, 32, 33, 34, 36, 38, 40, 42, 44, 46, 48, 50]
 KEYS2 = [5, 15, 16, 16, 25, 35, 45, 55, 60, 61]
+# duplicate keys that straddle EVERY block boundary whatever the block capacity is (a 64-byte block holds 12 INT keys, not
+# 16: the duplicates of KEYS1 never straddled a boundary, and a seek that lands on the first block STARTING with the key
+# went unnoticed): every key twice starting at even / at odd positions, every key three times, and runs longer than a block
+KEYSETS = {
+    "base": KEYS1,
+    "pairs-even": [i // 2 for i in range(64)],
+    "pairs-odd": [0] + [1 + i // 2 for i in range(63)],
+    "triples": [i // 3 for i in range(66)],
+    "runs": list(range(10)) + [14] * 30 + [15, 16, 17] + [20] * 14 + [31, 32, 50],
+}
 CONSTS = [-1, 0, 1, 14, 15, 16, 17, 19, 20, 31, 32, 41, 50, 55, 61, 62, 99]
 OPS = ["=", "<", "<=", ">", ">="]
 LAYOUTS = [{"block": 64, "rowset": 1 << 20}, {"block": 16384, "rowset": 1 << 20}, {"block": 64, "rowset": 1 << 20, "first_key": False}]
@@ -81,13 +91,17 @@ def cases(tier):
                     continue
                 for shape in ("one-rowset", "two-rowsets", "two-rowsets+delete"):
                     yield {"pos": pos, "ktype": ktype, "layout": layout, "shape": shape}
+                    for ks in KEYSETS:
+                        if ks == "base" or (tier == "quick" and (shape == "two-rowsets" or (ktype != "int" and ks != "pairs-odd"))):
+                            continue
+                        yield {"pos": pos, "ktype": ktype, "layout": layout, "shape": shape, "keys": ks}
 
 
 def build(case, tier):
     pos, ktype = case["pos"], case["ktype"]
     lit, val = KEYTYPES[ktype][2], KEYTYPES[ktype][1]
     steps = [{"sql": table_sql(pos, ktype)}]
-    rows = rows_for(KEYS1, 0)
+    rows = rows_for(KEYSETS[case.get("keys", "base")], 0)
     steps.append({"sql": insert_sql(pos, ktype, rows)})
     if case["shape"] != "one-rowset":
         r2 = rows_for(KEYS2, 3)
@@ -180,7 +194,7 @@ def big_case(tier):
 
 def run(tier, seed):
     chk = core.Check("C13", tier, "exploration",
-                     "pk position {0,1,2} x key type x layout (64-byte / 16K blocks, with/without recorded first keys) x {1 row-set, 2 row-sets, 2 row-sets + deleted rows} x "
+                     "pk position {0,1,2} x key type x layout (64-byte / 16K blocks, with/without recorded first keys) x {1 row-set, 2 row-sets, 2 row-sets + deleted rows} x 5 key sets (gaps and duplicates; every key twice from even / odd positions and three times, so that duplicates straddle every block boundary; runs longer than a block) x "
                      "all predicates (5 operators x 17 constants incl. duplicates at block boundaries and absent keys; two-sided ranges; residual predicates; reversed operands) x 4 select lists; "
                      "plus a 5000-row single-row-set table probed around the 2048-row batch boundaries; oracle: rows computed from the known contents; a case = (table config, query); non-trivial = expected result non-empty", seed)
     cs = list(cases(tier))
